@@ -13,7 +13,7 @@ func init() {
 	prop("C05",
 		"(ssz.fields) HashTreeRoot lists the same fields in the same order as the codec methods; (ssz.coll) struct-form hashers use the same limits/lengths as decoding and pack basic elements at their own width; (ssz.descriptor) the struct form's shape equals the view descriptor's shape position by position and recursively, so both merkleize against the same schema; (view.build) struct->view constructors and fork upgrades place every value at the position of the field it came from; (view.elem) element views written into packed lists have the descriptor's element width; (codec.scope) struct->view helpers decode with the full byte length.",
 		"ztyp merkleization and subtree-hash caching (trusted); hand-written HashTreeRoot bodies of fixed byte-array leaf types; staleness of cached roots under mutation sequences is a property of ztyp's persistent tree, outside zrnt's source.",
-		"ssz.fields", "ssz.coll", "ssz.descriptor", "view.build", "view.elem", "codec.scope")
+		"ssz.fields", "ssz.coll", "ssz.descriptor", "view.build", "view.elem", "codec.scope", "tree.alias")
 	prop("C15",
 		"(view.index) all index-addressed accesses of all container views (six fork states and every sub-view) use an in-range constant index, apply a wrapper whose shape matches FieldDef[i], and an accessor named after a field never indexes another field; (view.iota) index-constant blocks are dense, complete, and spell the descriptor's field order; (view.raw) Raw() rebuilds each struct field from the index of that field; (view.build)/(lit.copy) positional constructors and same-name field copies do not cross fields; (view.elem) typed sub-views write elements of the right width; (ssz.descriptor) the descriptor the indices refer to is the struct's schema.",
 		"that ztyp's persistent tree keeps copies independent (trusted); independence of EpochsContext clones is decided under C08 rules; value-level getter/setter round trips.",
@@ -22,7 +22,7 @@ func init() {
 	prop("C09",
 		"(idx.units) every weight / best-child / best-descendant update and every delta addresses the node it means: absolute NodeIndex values are never used as positions in the live window, offset subtractions are guarded against pruned nodes, stored links are absolute; parent links to pruned nodes are skipped; (args.order) justified/finalized checkpoints and epochs are not passed crosswise through the wrapper layers; (lock.held/lock.reentry) the wrapper holds its lock around every graph/vote access and never re-enters it.",
 		"that the maintained weights and links select the LMD-GHOST winner over histories; vote replacement rules in the vote store; viability filtering semantics.",
-		"idx.units", "args.order@forkchoice.|proto.|fctest.", "lock.held@forkchoice.", "lock.reentry@forkchoice.")
+		"idx.units", "score.flow", "args.order@forkchoice.|proto.|fctest.", "lock.held@forkchoice.", "lock.reentry@forkchoice.")
 	prop("C10",
 		"(lock.reentry) no path of UpdateJustified/updateJustified re-acquires the wrapper mutex, so the call returns; (args.order) the checkpoint pair is passed in the callee's parameter order; (prune.together) OnPrune notifies the sink for the node at each loop position with the flag of that same node, updates nodes/indices/indexOffset together per pruned node, prunes without a sink, and does not delete the anchor's own block-slot entry; (loop.stuck) no loop indexes with a counter that never advances; (idx.units) operations after a prune skip links to pruned parents and use relative positions.",
 		"that exactly the non-descendants of the finalized node are dropped (the implementation prunes by insertion order - a design choice, see DESIGN.md); head-stays-in-finalized-subtree; refusal of conflicting checkpoints beyond the structural calls.",
@@ -34,7 +34,7 @@ func init() {
 	prop("C16",
 		"(cache.parent) every answer taken from a parent cache is confined to the trusted prefix (argument test for index-keyed, result test for key-keyed lookups), so a handle never reports an entry that exists only on a sibling history; (cache.recursion) AddValidator recurses only into a fresh child{parent: receiver, trustedParentCount: conflicting index}, the parent chain is acyclic, the append is preceded by the next-index check, the no-op returns the receiver; (cache.deposit) deposit processing guards hits with the state's validator count and keeps the returned handle.",
 		"exactness of lookups over arbitrary fork trees of histories; concurrent use (C17).",
-		"cache.parent", "cache.recursion", "cache.deposit")
+		"cache.parent", "cache.recursion", "cache.units", "cache.deposit")
 	prop("C17",
 		"(lock.held) for the seven mutex-carrying types (fork-choice wrapper, pubkey cache, four operation pools, sync-committee pool) every exported method holds the mutex at every access of mutable state on every path, with write mode for writes and mutating calls, helpers that need the lock are only called under it, and every acquisition is released; (lock.reentry) no same-receiver re-acquisition on any call path; (lock.atomic) check-then-act across separate critical sections; (lazy.init) unsynchronised lazy stores on values handed out by shared containers.",
 		"linearizability of results; races inside ztyp/BLS; fairness. Two recorded findings remain (PubkeyCache.AddValidator check-then-act, CachedPubkey lazy decompression).",
@@ -42,7 +42,7 @@ func init() {
 	prop("C20",
 		"(map.init) every map field that a pool method index-assigns is allocated by the constructor; (nil.maplookup) pointers from map lookups are nil/ok-tested before dereference; (lock.held) pool methods hold the pool lock around index access.",
 		"that returned items are exactly what was added over histories; aggregate OR-ing of participants; pruning exactness.",
-		"map.init@pool.", "nil.maplookup@pool.", "lock.held@pool.")
+		"map.init@pool.", "nil.maplookup@pool.", "lock.held@pool.", "pool.keys")
 
 	prop("C01",
 		"(pipe.stages) each fork's ProcessBlock runs exactly the spec's sub-transitions for that fork, in that fork's variant, on every success path, with non-commuting stages in spec order; (slots.order) StateTransition verifies the proposer signature before and the state root after ProcessBlock; (fork.settings) fork-dependent penalties/shares read the fork's own preset fields; (limits.first) per-block operation limits equal the SSZ limits; (exitqueue.reset) exit-queue computation resets its churn count; (engine.verdict) the payload header is stored only after the engine approved; (err.flow) no error on the block path is dropped (a dropped error = a rejected block accepted); (args.order) no permuted same-typed arguments; (view.elem/view.index) every state field the pipeline touches is addressed and typed correctly; (cache.deposit) deposits keep the pubkey cache in step.",
@@ -55,7 +55,7 @@ func init() {
 	prop("C03",
 		"(err.flow) every error produced on the transition path is propagated or ends the path with a refusal; values are not dereferenced before their error is examined; (bls.verify) every signature check covers the whole signing root, under the spec's domain for that message type and fork-version class, and a false result refuses; (limits.first) operation counts are bounded; (merkle.bound) the deposit proof is bounded, checked, and precedes the index increment; (slots.order) target-slot guard, signature and state-root checks; (nil.maplookup/index.guard/map.init) the three exact panic shapes; (ssz.coll) decode limits are the type's limits; (fork.chain) the version used for the envelope signature is the slot's.",
 		"that each individual comparison is the spec's comparison (< vs <=, which field): a semantic fact about a boolean expression, left to other technique families; explicit panic() calls guarded by invariants are listed, not judged.",
-		"err.flow", "bls.verify", "limits.first", "merkle.bound", "slots.order", "nil.maplookup", "index.guard", "map.init", "ssz.coll", "fork.chain")
+		"err.flow", "bls.verify", "limits.first", "merkle.bound", "slots.order", "nil.maplookup", "index.guard", "map.init", "ssz.coll", "fork.chain", "adjacent.pairs")
 	prop("C06",
 		"(shuffle.perm) permutation clause: the whole-list routine writes its input only through two-element swaps of the list's own elements, so its output is a permutation of the input for every seed, size and round count; wiring clause: forward/inverse entry points differ only in the direction flag, the round counter runs 0..rounds-1 forwards and rounds-1..0 backwards with rounds == 0 short-circuited, the two mirrored pair loops are identical, and the epoch shuffling is an element-wise copy un-shuffled with SHUFFLE_ROUND_COUNT.",
 		"that the permutation is the spec's swap-or-not permutation (pivot, hash-bit selection at 256/8 boundaries) and that forward and inverse are mutually inverse for all sizes: both are numeric facts about hash-derived bits.",
@@ -63,7 +63,7 @@ func init() {
 	prop("C07",
 		"(committee.partition) committees are consecutive reslices [n*k/count, n*(k+1)/count) of one permutation over the full slot x index product, hence a partition of the active set; committee count follows the spec formula with clamp and floor; proposer and sync-committee sampling share the spec's acceptance test and permuted-index call; (seed.domain) each consumer seeds with the spec's domain; (shuffle.perm) the sliced list is a permutation of the active indices.",
 		"equality of the assignment with the spec's for given randao/balances (numeric).",
-		"committee.partition", "seed.domain", "shuffle.perm")
+		"committee.partition", "seed.domain", "shuffle.perm", "epoch.pairing")
 	prop("C08",
 		"(epc.coverage) every field the from-scratch constructor computes is refreshed by RotateEpochs, and the genesis context computes the phase0 subset; (epc.upkeep) rotation shifts previous<-current<-next, computes next for current+1, sync committees follow the period test and are loaded on the altair upgrade; (slots.order) rotation happens after SetSlot at epoch ends; (cache.deposit) the pubkey cache grows with each new validator and the returned handle is kept; (epc.shared) shared sub-structures are never written after construction, so a cloned context is independent.",
 		"value equality of the incremental and the from-scratch context along histories.",
@@ -71,7 +71,7 @@ func init() {
 	prop("C12",
 		"(gossip.mark) seen-caches are marked only where nothing but ACCEPT can follow, and every ACCEPT passes the mark of each key the validator consults; (gossip.verdict) every refusal carries the verdict class of its governing outcome (timing/availability => IGNORE, validity => REJECT), no refusal branch accepts, ACCEPT is the final unconditional return; (bls.verify) the ten verification sites the validators reach check the whole root under the spec's domain; (err.flow) a swallowed error cannot fall through to ACCEPT; (args.order).",
 		"completeness of each validator against the p2p spec's full condition list beyond the tabled outcomes; exact clock-window arithmetic.",
-		"gossip.mark", "gossip.verdict", "bls.verify", "err.flow@gossipval.|phase0.|altair.|common.", "args.order@gossipval.")
+		"gossip.mark", "gossip.verdict", "loop.exists", "bls.verify", "err.flow@gossipval.|phase0.|altair.|common.", "args.order@gossipval.")
 	prop("C13",
 		"(genesis.init) GenesisFromEth1 performs the spec's initialisation steps with the spec's arguments on every success path, updates the deposit-tree root before each deposit, rounds/caps effective balances and activates at MAX_EFFECTIVE_BALANCE, takes the validators root after activation, loads the context, and only the kick-start helpers skip signatures/proofs; IsValidGenesisState compares with the two spec constants; (cache.deposit)(merkle.bound)(bls.verify)(err.flow) the shared ProcessDeposit obligations incl. the three spec-mandated forgiven errors; (epc.coverage) the genesis context is complete; (config.values) genesis constants are the spec's.",
 		"field-for-field equality with the spec's genesis state for all deposit lists.",
